@@ -1621,6 +1621,17 @@ def _wrap_td_method(
             if copy_non_tensor and non_tensordict:
                 # use tree_map to copy
                 non_tensordict = tree_map(_identity, non_tensordict)
+            if (
+                "data" in non_tensordict
+                and isinstance(self, NonTensorData)
+                and (self._is_shared or self._is_memmap)
+                and not (result._is_shared or result._is_memmap)
+            ):
+                # the payload of a shared / memory-mapped NonTensorData is kept in a
+                # multiprocessing wrapper that only `data` unwraps while the tensordict
+                # is flagged as shared: a result that is not shared (clone, copy) must
+                # carry the python value, not the wrapper
+                non_tensordict["data"] = _from_shared_nontensor(non_tensordict["data"])
             return self._from_tensordict(result, non_tensordict, safe=False)
         return result
 
